@@ -347,6 +347,18 @@ struct OptDriver : DriverBase<OptDriver<T>> {
         if (op == "assign_value") {
             ctx.log.kv("v", val);
             int const how = static_cast<int>(st.k[0] % 3);
+            if constexpr (copyable) {
+                if (how == 1 && was && !unspec[a] && st.k[1] % 4 == 0) {
+                    // F6: o = *o, the argument is the contained value itself
+                    SIM_COUNT("F6.assign_own_value");
+                    ctx.log.s(" own");
+                    bool ok2 = call(a, false, false, [&] { v = static_cast<T const&>(*v); });
+                    if (ok2) {
+                        ++ctx.boundaryEvents;
+                    }
+                    return;
+                }
+            }
             T tmp         = T(val);
             bool ok       = call(a, false, false, [&] {
                 if (how == 0) {
@@ -422,11 +434,23 @@ struct OptDriver : DriverBase<OptDriver<T>> {
             return;
         }
         if (op == "move_assign") {
-            if (obj[b] == nullptr || unspec[b] || a == b) {
+            if (obj[b] == nullptr || unspec[b]) {
                 skip();
                 return;
             }
             ctx.log.kv("b", b);
+            if (a == b) {
+                // F6: self-move-assignment through an alias. As with std::optional the engaged flag cannot change (an
+                // engaged optional move-assigns its value to itself); the value is then unspecified for class types
+                SIM_COUNT("F6.self_move_assign");
+                O& alias = *obj[b];
+                bool ok  = call(a, false, false, [&] { v = static_cast<O&&>(alias); });
+                if (ok) {
+                    unspec[a] = tracked && m.has_value();
+                    ++ctx.boundaryEvents;
+                }
+                return;
+            }
             bool ok = call(a, false, false, [&] { v = static_cast<O&&>(*obj[b]); });
             if (ok) {
                 m         = model[b];
@@ -1474,11 +1498,25 @@ struct VarDriver : DriverBase<VarDriver<Ts...>> {
             return;
         }
         if (op == "move_assign") {
-            if (obj[b] == nullptr || unspec[b] || a == b) {
+            if (obj[b] == nullptr || unspec[b]) {
                 skip();
                 return;
             }
             ctx.log.kv("b", b);
+            if (a == b) {
+                // F6: self-move-assignment through an alias: same index afterwards (the alternative is move-assigned to
+                // itself, as in std::variant); a class-type alternative's value is then unspecified
+                SIM_COUNT("F6.self_move_assign");
+                V& alias = *obj[b];
+                bool ok  = call(a, false, false, [&] { v = static_cast<V&&>(alias); });
+                if (ok) {
+                    bool selfTracked = false;
+                    with_index<NA>(m.index, [&](auto ic) { selfTracked = is_tracked_v<Alt<decltype(ic)::value>>; });
+                    unspec[a] = selfTracked;
+                    ++ctx.boundaryEvents;
+                }
+                return;
+            }
             bool ok = call(a, false, false, [&] { v = static_cast<V&&>(*obj[b]); });
             if (ok) {
                 m         = model[b];
@@ -1941,12 +1979,12 @@ struct ExpDriver : DriverBase<ExpDriver<T, E>> {
             return;
         }
         if (op == "copy_assign" || op == "move_assign") {
-            if (obj[b] == nullptr || unspec[b] || (op == "move_assign" && a == b)) {
+            if (obj[b] == nullptr || unspec[b]) {
                 skip();
                 return;
             }
             if (a == b) {
-                SIM_COUNT("F6.self_copy_assign");
+                SIM_COUNT(op == "copy_assign" ? "F6.self_copy_assign" : "F6.self_move_assign");
             }
             bool ok = call(a, false, false, [&] {
                 if (op == "copy_assign") {
@@ -1955,6 +1993,12 @@ struct ExpDriver : DriverBase<ExpDriver<T, E>> {
                     v = static_cast<X&&>(*obj[b]);
                 }
             });
+            if (ok && a == b && op == "move_assign") {
+                // F6: self-move-assignment: the side (value / error) cannot change, a class-type content is unspecified
+                unspec[a] = tracked;
+                ++ctx.boundaryEvents;
+                return;
+            }
             if (ok) {
                 if (a != b) {
                     m = model[b];
